@@ -66,4 +66,76 @@ inductive TreeAccepts (acc : Obj → Prop) : Obj → Prop
   | leaf (x : Obj) : acc x → TreeAccepts acc x
   | node (x : Obj) (cs : List Obj) : x.children? = some cs → (∀ c ∈ cs, TreeAccepts acc c) → TreeAccepts acc x
 
+mutual
+/-- one value against a memo-free leaf type, as typeguard decides it -/
+def accL : LType → Obj → Bool
+  | .any, _ => true
+  | .int, x => (match x with | .int _ => true | _ => false)
+  | .str, x => (match x with | .str _ => true | _ => false)
+  | .noneT, x => (match x with | .none => true | _ => false)
+  | .user acc _, x => (match x with | .opaque tag => acc.contains tag | _ => false)
+  | .tuple ts, x =>
+    (match x with
+     | .tuple xs => xs.length == ts.length && accLs ts xs
+     | .ntuple _ xs => xs.length == ts.length && accLs ts xs
+     | _ => false)
+  | .union ts, x => accLU ts x
+  | .barePytree, _ => true
+  | .arr _ _, _ => false
+  | .pytree _ _, _ => false
+def accLs : List LType → List Obj → Bool
+  | [], _ => true
+  | _ :: _, [] => true
+  | t :: ts, x :: xs => accL t x && accLs ts xs
+def accLU : List LType → Obj → Bool
+  | [], _ => false
+  | t :: ts, x => accL t x || accLU ts x
+end
+
+def Obj.isArrOf (cls : String) : Obj → Bool
+  | .arr c _ => cls == "" || cls == c
+  | _ => false
+
+mutual
+/-- the leaves `tree_flatten(x, is_leaf=p)` yields (pure; `None` and empty containers yield none) -/
+def leavesWith (p : Obj → Bool) : Obj → List Obj
+  | .tuple xs => if p (.tuple xs) then [.tuple xs] else leavesWithList p xs
+  | .list xs => if p (.list xs) then [.list xs] else leavesWithList p xs
+  | .dict ks vs => if p (.dict ks vs) then [.dict ks vs] else leavesWithList p vs
+  | .ntuple t xs => if p (.ntuple t xs) then [.ntuple t xs] else leavesWithList p xs
+  | .custom t f xs => if p (.custom t f xs) then [.custom t f xs] else leavesWithList p xs
+  | .none => if p .none then [.none] else []
+  | .int n => [.int n]
+  | .str s => [.str s]
+  | .opaque t => [.opaque t]
+  | .arr c a => [.arr c a]
+def leavesWithList (p : Obj → Bool) : List Obj → List Obj
+  | [] => []
+  | x :: xs => leavesWith p x ++ leavesWithList p xs
+end
+
+/-- leaf types through which the two transient flags pass untouched once the flags are
+    re-entrant: everything except a *structured* PyTree -/
+inductive FlagTransparent : LType → Prop
+  | any : FlagTransparent .any
+  | int : FlagTransparent .int
+  | str : FlagTransparent .str
+  | noneT : FlagTransparent .noneT
+  | bare : FlagTransparent .barePytree
+  | user (acc : List String) (f : List (String × Exc)) : FlagTransparent (.user acc f)
+  | arr (cls : String) (a : Ann) : FlagTransparent (.arr cls a)
+  | tuple (ts : List LType) : (∀ t ∈ ts, FlagTransparent t) → FlagTransparent (.tuple ts)
+  | union (ts : List LType) : (∀ t ∈ ts, FlagTransparent t) → FlagTransparent (.union ts)
+  | pytree (l : LType) : FlagTransparent l → FlagTransparent (.pytree l none)
+
+/-- keys a check at `?`-position `tp` can read or write: plain names and names of that position -/
+def Key.relevant (tp : TreePath) : Key → Prop
+  | .plain _ => True
+  | .leaf i t _ => tp = some (i, t)
+
+/-- axis names are identifiers or empty; structure strings contain no ')' -/
+def Key.WellFormed : Key → Prop
+  | .plain x => x = "" ∨ isIdentStr x = true
+  | .leaf _ t x => (x = "" ∨ isIdentStr x = true) ∧ ¬ (')' ∈ t.toList)
+
 end JV
